@@ -81,7 +81,7 @@ def typed(v, t):
 
 
 NATIVES = dict(requires=requires, implies=implies, iff=iff, isfinite=isfinite, forall=forall, exists=exists,
-               typed=typed, math=math, Skip=Skip)
+               typed=typed, math=math, Skip=Skip, allocated=lambda x: True, unwrap=lambda x: x)
 
 
 class Builder(object):
